@@ -17,12 +17,15 @@ pub struct TestSource {
     pub bytes_mode: bool,
     pub hint: bool,
     pub fail_at: Option<usize>,
+    /// in bytes mode: the read with this index delivers its samples in containers one byte wider than the
+    /// declared sample width (a fill the encoder must reject as a source error)
+    pub wide_at: Option<usize>,
     pub reads: usize,
 }
 
 impl TestSource {
     pub fn new(pcm: &Pcm, bytes_mode: bool, hint: bool) -> Self {
-        TestSource { pcm: pcm.clone(), pos: 0, bytes_mode, hint, fail_at: None, reads: 0 }
+        TestSource { pcm: pcm.clone(), pos: 0, bytes_mode, hint, fail_at: None, wide_at: None, reads: 0 }
     }
 }
 
@@ -56,6 +59,7 @@ impl Source for TestSource {
         let src = &self.pcm.data[begin..end];
         if self.bytes_mode {
             let bps = (self.pcm.bps + 7) / 8;
+            let bps = if self.wide_at == Some(k) && bps < 4 { bps + 1 } else { bps };
             dest.fill_le_bytes(&le_bytes(src, bps), bps)?;
         } else {
             dest.fill_interleaved(src)?;
